@@ -993,6 +993,16 @@ class Engine:
                 if '__pointee' not in b.fields and bm:
                     b.fields['__pointee'] = Cell(self.ex.fresh(bm.group(1), b.name + '.*'))
                 if '__pointee' in b.fields: return RefV(b.fields['__pointee'])
+        mm = re.match(r'^<([\w:]+) as PartialEq>::(eq|ne)$', c)
+        if mm and len(args) == 2:
+            a_, b_ = self.deref_val(args[0]), self.deref_val(args[1])
+            base_ = mm.group(1).split('::')[-1]
+            if isinstance(a_, EnumV) and isinstance(b_, EnumV) and base_ in ENUMS and not a_.payload and not b_.payload:
+                e_ = zint_(a_.disc) == zint_(b_.disc)
+                return BoolV(e_ if mm.group(2) == 'eq' else z3.Not(e_))
+            if isinstance(a_, IntV) and isinstance(b_, IntV) and a_.ty == b_.ty and a_.ty in ('Pubkey',) + tuple(INT_RANGES):
+                e_ = a_.e == b_.e
+                return BoolV(e_ if mm.group(2) == 'eq' else z3.Not(e_))
         # ---- Anchor / Pubkey / PDA models (keys are uninterpreted scalars; sha256 derivation is an uninterpreted function)
         if re.match(r'^<anchor_lang::prelude::(AccountLoader|Account|InterfaceAccount|Signer|Program|Interface|SystemAccount|UncheckedAccount|Sysvar)<.*> as AsRef<anchor_lang::prelude::AccountInfo<.*>>>::as_ref$', c):
             o = self.deref_val(args[0])
